@@ -290,6 +290,10 @@ def r9_5(prog, rep):
             d = dotted(c.func) or ""
             if d in NAN_MASKING or (isinstance(c.func, ast.Attribute) and c.func.attr in NAN_MASKING_METHODS) or d in ("np.errstate", "np.seterr"):
                 hits.append(c)
+            # a conversion that is told what to put in place of a missing value: to_numpy(na_value=0), reindex(fill_value=...), nan_to_num(nan=...)
+            elif any(k.arg in ("na_value", "fill_value", "nan", "na_rep") and not (isinstance(k.value, ast.Attribute) and k.value.attr in ("nan", "NaN", "NA"))
+                     and not (isinstance(k.value, ast.Constant) and k.value.value is None) for k in c.keywords):
+                hits.append(c)
         # a masked / indexed store into the array that holds a product of data columns overwrites NaN with a number
         products = set()
         for st in walk_local(f.node):
@@ -708,6 +712,12 @@ def r9_4(prog, rep, rule="R9.4"):
     defs = {unparse(s.targets[0]) for s in walk_local(vc.node) if isinstance(s, ast.Assign)}
     obl(rep, vc, vc.node, rule, bool(defs) and defs <= names, "visitLazyCall returns the names from positional and keyword arguments",
         f"returned: {sorted(names)}", f"visitLazyCall computes {sorted(defs)} but returns only {sorted(names)}")
+    # ... and from nothing else: the callee is a function (or a module path), not a column - its name, or a part of it, counted
+    # as a used variable would pull an unrelated column of that name into the missing-value filter
+    pc = vc.params[1]
+    reads_ = {n.attr for n in ast.walk(vc.node) if isinstance(n, ast.Attribute) and isinstance(n.value, ast.Name) and n.value.id == pc}
+    obl(rep, vc, vc.node, rule, reads_ <= {"args", "kwargs"}, "visitLazyCall takes names from the arguments only (never from the callee)",
+        f"fields read: {sorted(reads_)}", f"visitLazyCall also reads {sorted(reads_ - {'args', 'kwargs'})} of the call: the callee's name becomes a used variable")
     # back-quoted names are stripped identically
     forms = {}
     for q in ("resolver.Resolver.visitQuotedNameExpr", "terms.call_resolver.CallResolver.visitQuotedNameExpr",
